@@ -114,7 +114,7 @@ class PageXMLWord(PageXMLDoc):
     def json(self) -> Dict[str, any]:
         doc_json = super().json
         doc_json['text'] = self.text
-        if self.conf:
+        if self.conf is not None:
             doc_json['conf'] = self.conf
         return doc_json
 
@@ -533,6 +533,7 @@ class PageXMLTableCell(PageXMLDoc):
     @property
     def json(self):
         doc_json = super().json
+        doc_json['row'] = self.row
         doc_json['col'] = self.col
         doc_json['cell_span'] = self.cell_span
         doc_json['row_span'] = self.row_span
